@@ -7,7 +7,7 @@
 (***************************************************************************)
 EXTENDS Heap, Gen, Json
 
-VARIABLES T, v, kind
+VARIABLES T, v, kind, prior      \* prior: what was called on the same class, with the same dialect object, BEFORE the judged to_dict
 
 Leaf3 == { <<"int">>, <<"str">>, <<"date">>, <<"any">> }
 L1 == { <<"list", e>> : e \in Leaf3 } \cup { <<"dict", <<"str">>, e>> : e \in Leaf3 } \cup { <<"set", e>> : e \in Leaf3 \ { <<"any">> } }
@@ -21,24 +21,36 @@ ClassFor(t, n, plain) ==
     (IF n # {} THEN << <<"dialect", << <<"name", "NC">>, <<"no_copy", n>> >> >> >> ELSE <<>>)
     \o (IF plain THEN << <<"mixin", "plain">> >> ELSE <<>>) >>
 
+\* history families: a format mixin that enabled dialect support; the judged call is to_dict(dialect=DD) AFTER
+\* to_msgpack(dialect=DD) / to_jsonb(dialect=DD) (whose FORMAT dialects list no_copy_collections = (list, dict)):
+\* what to_dict shares is a function of class, dialect and value only
+Priors == {"fresh", "msgpack", "orjson"}
+DD == << <<"name", "DD">>, <<"omit_none", TRUE>> >>
+ClassHist(t, n, fmt) ==
+  <<"dc", "K", << <<"f", t, <<"req">>, <<>> >>, <<"g", <<"list", <<"int">> >>, <<"fac", L(<<I(1)>>)>>, <<>> >> >>,
+    (IF n # {} THEN << <<"dialect", << <<"name", "NC">>, <<"no_copy", n>> >> >> >> ELSE <<>>)
+    \o << <<"mixin", fmt>>, <<"flags", {"dialect_flag"}>> >> >>
+HistShapes == { <<"list", e>> : e \in Leaf3 } \cup { <<"dict", <<"str">>, e>> : e \in Leaf3 } \cup { <<"list", <<"list", <<"int">> >> >>, <<"opt", <<"dict", <<"str">>, <<"str">> >> >> }
+
 \* Any positions hold scalars only (the statement excepts Any / pass_through positions)
 ScalarAny(x) == TRUE
 
-Init == T = <<"start">> /\ v = <<"nov">> /\ kind = "start"
-Next == \/ kind = "start" /\ \E t \in Shapes, n \in NSets, p \in BOOLEAN : T' = ClassFor(t, n, p) /\ v' = v /\ kind' = "type"
-        \/ kind = "type" /\ T' = T /\ v' \in Range(Smp(T)) /\ kind' = "value"
+Init == T = <<"start">> /\ v = <<"nov">> /\ kind = "start" /\ prior = "fresh"
+Next == \/ kind = "start" /\ \E t \in Shapes, n \in NSets, p \in BOOLEAN : T' = ClassFor(t, n, p) /\ v' = v /\ kind' = "type" /\ prior' = "fresh"
+        \/ kind = "start" /\ \E t \in HistShapes, n \in {{}, {"list"}}, f \in Priors \ {"fresh"} : T' = ClassHist(t, n, f) /\ v' = v /\ kind' = "type" /\ prior' = f
+        \/ kind = "type" /\ T' = T /\ v' \in Range(Smp(T)) /\ kind' = "value" /\ prior' = prior
 
-Cx == DefaultCx
+Cx == IF prior = "fresh" THEN DefaultCx ELSE [DefaultCx EXCEPT !.dlct = DD]
 Wire == Pack(T, Cx, v)
 Shared == SharedPaths(T, Cx, v, <<>>)
 
 \* ---- model theorems
 \* with the default dialect nothing is shared
-DefaultSharesNothing == (kind = "value" /\ ~HasOpt(DcCfg(T), "dialect")) => Shared = {}
+DefaultSharesNothing == (kind = "value" /\ ~HasOpt(DcCfg(T), "dialect")) => Shared = {}     \* also after any prior format call
 \* what is shared is always a listed collection type (or sits inside one)
 OnlyListed ==
   kind = "value" => \A p \in Shared : \E q \in Shared : /\ Len(q) <= Len(p) /\ SubSeq(p, 1, Len(q)) = q
                                                          /\ LET n == GetOpt(GetOpt(DcCfg(T), "dialect", <<>>), "no_copy", {}) IN n # {}
 
-EmitInv == kind = "value" => PrintT(ToJson(<<"share", T, v, Wire, Shared, AnyPaths(T, v, <<>>)>>))
+EmitInv == kind = "value" => PrintT(ToJson(<<"share", T, v, Wire, Shared, AnyPaths(T, v, <<>>), prior, IF prior = "fresh" THEN <<>> ELSE DD>>))
 =============================================================================
